@@ -203,6 +203,26 @@ func (e *Engine) isNoopPkg(p *types.Package) bool {
 
 func (e *Engine) hasInitializer(g *ssa.Global) bool { return e.initStores[g] }
 
+// skipOwnInit lists own packages whose init only registers API types with client-go schemes; their
+// init is not executed and their initialised globals are treated like dependency globals.
+var skipOwnInit = []string{ownModule + "/pkg/ipam/client/", ownModule + "/pkg/ipam/apis/"}
+
+// initRuns reports whether the package initialiser of p is executed by the engine.
+func (e *Engine) initRuns(p *types.Package) bool {
+	if p == nil {
+		return true
+	}
+	if e.isOwnPkg(p) {
+		for _, s := range skipOwnInit {
+			if strings.HasPrefix(p.Path()+"/", s) {
+				return false
+			}
+		}
+		return true
+	}
+	return e.RunInit[p.Path()]
+}
+
 func (e *Engine) noteExec(fn *ssa.Function) {
 	e.mu.Lock()
 	e.execFns[fn]++
@@ -232,13 +252,16 @@ func (e *Engine) modelFor(fn *ssa.Function) modelFn {
 			if m, ok := e.models["own:"+fn.Name()]; ok && fn.Signature.Recv() == nil {
 				return m
 			}
+			if fn.Synthetic == "package initializer" && !e.initRuns(fn.Pkg.Pkg) {
+				return modelNoop
+			}
 			return nil
 		}
 		if e.isNoopPkg(fn.Pkg.Pkg) {
 			return modelNoop
 		}
 		// package initialisers of dependencies are skipped unless whitelisted
-		if fn.Synthetic == "package initializer" && !e.RunInit[fn.Pkg.Pkg.Path()] {
+		if fn.Synthetic == "package initializer" && !e.initRuns(fn.Pkg.Pkg) {
 			return modelNoop
 		}
 	} else if fn.Signature.Recv() != nil {
